@@ -861,6 +861,18 @@ def CustomObject(type='x-custom-type', properties=None, extension_name=None, is_
         )
 
         if extension_name:
+            if '--' not in extension_name:
+                raise ValueError(
+                    "Invalid extension name '%s': must be the id of an "
+                    "extension definition" % extension_name,
+                )
+            cls.with_extension = extension_name
+
+        # The object first: if it is refused, the extension must not stay
+        # behind in the registry.
+        new_type = _custom_object_builder(cls, type, _properties, '2.1', _DomainObject)
+
+        if extension_name:
             @CustomExtension(type=extension_name, properties={})
             class NameExtension:
                 if is_sdo:
@@ -871,7 +883,6 @@ def CustomObject(type='x-custom-type', properties=None, extension_name=None, is_
             extension = extension_name.split('--')[1]
             extension = extension.replace('-', '')
             NameExtension.__name__ = 'ExtensionDefinition' + extension
-            cls.with_extension = extension_name
-        return _custom_object_builder(cls, type, _properties, '2.1', _DomainObject)
+        return new_type
 
     return wrapper
